@@ -127,6 +127,10 @@ class StlAstParserVisitor(LtlAstParserVisitor, StlParserVisitor):
 
 
     def literal_to_fraction(self, text):
+        # a constant declared through the API may be a number: 0.1 stands for the decimal it
+        # prints as, not for the binary fraction the float holds
+        if isinstance(text, float):
+            text = repr(text)
         # the grammar admits runs of digit-group underscores (0x1__F), int() does not
         if hasattr(text, 'replace'):
             text = text.replace('_', '')
